@@ -78,7 +78,7 @@ CHECKS = {
    text="Seeded scenarios over orders 2..6 and four site layouts (incl. natural / clamped cubic with asymmetric end conditions and least squares); the basis oracle is C14's model-checked definition.",
    note="Model part is C14's basis model (the solved-spline layer is validated, not exhaustively enumerated); simple interior knots."),
  "C16": dict(engine="persist", cat="model_checking", design="5/C16",
-   technique="Save/load protocol as a TLC-checked state machine (Save, Mutate, Load, Resave over an abstract universe incl. the rebuild-on-load types; Load(Save(o)) = Canon(o), Canon idempotent, Save-Load-Save = Save); recorded round trips of every serialisable type x {JSON, tagged from_json, bincode} with random finite bit-pattern doubles validated by TLC: projection after = Canon(projection before) bit for bit, the library's == true, FX markets compared at order 1 with rates agreeing in any state; the pickle protocol (__new__(*__getnewargs__()) then __setstate__(__getstate__())) run through the pymethods themselves for every class that has one",
+   technique="Save/load protocol as a TLC-checked state machine (Save, Mutate, Load, Resave over an abstract universe incl. the rebuild-on-load types; Load(Save(o)) = Canon(o), Canon idempotent, Save-Load-Save = Save); recorded round trips of every serialisable type x {JSON, tagged from_json, bincode} with random finite bit-pattern doubles validated by TLC: projection after = Canon(projection before) bit for bit, the library's == true, FX markets compared at order 1 with rates agreeing in any state; the pickle protocol (__new__(*__getnewargs__()) then __setstate__(__getstate__())) and the text of each class's Python to_json() run through the pymethods themselves; numbers over permuted name lists loaded back to back",
    text="The protocol (what is stored, what is rebuilt, at which order, which equality) is model-checked; the float-text path is sampled with random 64-bit patterns (subnormals, -0.0, 17-digit mantissas), which is what exposed the non-round-tripping JSON float parser (fixed).",
    note="Encode/decode fidelity of third-party parsers is sampled, not enumerated; NaN / infinities are outside the property."),
  "C20": dict(engine="persist", cat="fault_enumeration", design="5/C20",
